@@ -113,6 +113,16 @@ def run(ctx):
             calls = [{"d": d, "delta": hexf(delta)}, {"d": d, "gamma": hexf(other)}, {"d": d, "gamma": hexf(gamma)},
                      {"d": d, "delta": hexf(delta), "return_alpha": True}, {"d": d, "delta": hexf(delta)}]
             cases.append({"fn": "fpsearch", "calls": calls, "d": d, "delta": delta, "timeout": 300})
+        # the length held in a narrow numpy integer or a float: 2d+1 must be formed after the conversion to a Python int
+        for d, dt in ([(100, "int8"), (150, "uint8"), (64, "int8"), (20, "float"), (7, "uint8")] if quick else
+                      [(100, "int8"), (150, "uint8"), (64, "int8"), (127, "int8"), (128, "uint8"), (200, "uint8"), (20, "float"), (7, "uint8"), (3, "int16"), (90, "int16")]):
+            delta = 0.3 if d % 2 else 0.5
+            L = 2 * d + 1
+            gamma = 1 / math.cosh(math.acosh(1 / delta) / L)
+            other = 1 / math.cosh(math.acosh(1 / (delta * 0.5)) / L)
+            calls = [{"d": d, "delta": hexf(delta), "d_type": dt}, {"d": d, "gamma": hexf(other), "d_type": dt}, {"d": d, "gamma": hexf(gamma), "d_type": dt},
+                     {"d": d, "delta": hexf(delta), "return_alpha": True, "d_type": dt}, {"d": d, "delta": hexf(delta)}]
+            cases.append({"fn": "fpsearch", "calls": calls, "d": d, "delta": delta, "timeout": 300})
     # gamma given directly, also where the corresponding delta = 1/T_L(1/gamma) is far below the smallest double (long sequences, small gamma)
     gcases = []
     if ctx.replay is None or ctx.replay.get("case", {}).get("fn") == "fpsearch_gamma":
